@@ -19,6 +19,12 @@ type world struct {
 
 func setup() *world {
 	w := &world{e: env.New()}
+	if vx.Param("suffixed") == 1 {
+		// a region-suffixing metastore (DynamoDB global tables): key ids carry the region, the id check on the way
+		// in accepts the suffixed, the unsuffixed and other regions' forms
+		w.e.Store.Suffix = "us-west-2"
+		vx.Tag("store", "suffixed")
+	}
 	cache := vx.Choice("cache", vx.Param("caches"))
 	w.pol = w.e.Policy(env.Policies[0], cache)
 	f0 := w.e.Factory(w.pol)
@@ -90,7 +96,11 @@ func Records() {
 			d.Data = nil
 		}
 	case 4: // parent meta pointing elsewhere
-		switch vx.Choice("parent", 4) {
+		switch vx.Choice("parent", 5) {
+		case 4:
+			// every proper prefix of the genuine id (a truncated record)
+			id := d.Key.ParentKeyMeta.ID
+			d.Key.ParentKeyMeta.ID = id[:vx.Choice("truncated_to", len(id))]
 		case 0:
 			d.Key.ParentKeyMeta.ID = env.IKID("p1")
 			d.Key.ParentKeyMeta.Created = w.other.Key.ParentKeyMeta.Created
